@@ -60,7 +60,12 @@ UpdateEff(n, h, s) ==
 
 Prop(act, n, ty, h, ct, ok) == [act |-> act, res |-> Res(ok), n |-> n, ty |-> ty, h |-> h, ct |-> ct]
 
+(* the host chain's clock moves past every trusting period (no update came for weeks): clients of proof-verifying types count as *)
+(* expired; nothing stored changes, and in particular a used chain name stays used                                               *)
+Lapse == UNCHANGED <<clients, peerH>> /\ last' = [act |-> "Lapse", res |-> "ok"]
+
 Next ==
+  \/ Lapse
   \/ PeerCommit
   \/ \E n \in Names, ty \in Types, h \in 1..MaxH, ct \in Contents :
        /\ h <= peerH /\ UNCHANGED peerH
